@@ -217,8 +217,9 @@ pub fn measure(kind: Kind, shape: Shape, n: usize, seg: usize, conns: usize, cap
         }
         let _ = crate::props::c15::arc_db();
     }
-    let base_live = alloc::live();
+    // the measurement vectors are allocated before the baseline is taken (they are not the analyzer's memory)
     let mut m = Measure { live: Vec::with_capacity(n), alloc: Vec::with_capacity(n) };
+    let base_live = alloc::live();
     for i in 0..n {
         crate::engine::watchdog_touch();
         let mut total_alloc = 0;
